@@ -240,6 +240,10 @@ pub struct RunCfg {
     /// what is relaxed in the oracles for such a source is listed in `RunCfg::lying_hint`.
     #[serde(default)]
     pub hint_short: usize,
+    /// the opposite lie: the exact size hint over-reports by this many elements (the source ends
+    /// earlier than announced, e.g. a queue that was drained by somebody else)
+    #[serde(default)]
+    pub hint_long: usize,
     /// how partly consumed chunks are finished: 0 dropped, 1 `count()`, 2 `last()`
     #[serde(default)]
     pub finish: u8,
@@ -1590,12 +1594,18 @@ impl RunCfg {
     /// length, so chunk sizes (clamped to the announced length) and length queries are not held
     /// against the model; exactly-once, indices, the end report and its permanence still are.
     pub fn lying_hint(&self) -> bool {
-        self.hint_short > 0 && self.kind.is_iter() && self.hint == Hint::Exact
+        (self.hint_short > 0 || self.hint_long > 0)
+            && self.kind.is_iter()
+            && self.hint == Hint::Exact
     }
 }
 
 fn probe_of<I: Iterator>(inner: I, n: usize, cfg: &RunCfg) -> Probe<I> {
-    let announced = if cfg.lying_hint() { n.saturating_sub(cfg.hint_short) } else { n };
+    let announced = if cfg.lying_hint() {
+        n.saturating_sub(cfg.hint_short) + cfg.hint_long
+    } else {
+        n
+    };
     let p = Probe::new(inner, announced, cfg.hint);
     if cfg.tail > 0 {
         p.not_fused()
